@@ -297,6 +297,13 @@ class TNMR:
         names = ["t2", "t1", "t3", "t4"]
         return np.squeeze(v), [names[k] for k in keep], [np.arange(c["ext"][k]) * dw[k] for k in keep]
 
+    def declared(self, c):
+        """byte length of the DATA section as the file states it (the int32 after the DATA tag)"""
+        n = 1
+        for e in c["ext"]:
+            n *= e
+        return 8 * n
+
     def perturbed(self, c, change):
         c2 = dict(c, ext=list(c["ext"])); c2["ext"][change[0]] += change[1]
         return c2 if min(c2["ext"]) >= 1 else None
